@@ -33,35 +33,62 @@ def _vc_component(R: Report, pid: str, tier: str, only=None):
     os.makedirs(cdir, exist_ok=True)
     records, undecided_all = [], []
     mods = set()
+    todo = []
     for q in funcs:
         found = eng.src.function(q)
         if found:
             mods.add(found[1].name)
         R.functions.append(q)
         cpath = os.path.join(cdir, q + ".json")
-        if os.path.exists(cpath) and not os.environ.get("PYVC_NOCACHE"):
-            d = json.load(open(cpath))
-            records += d["records"]
-            undecided_all += [tuple(u) for u in d["undecided"]]
+        if not (os.path.exists(cpath) and not os.environ.get("PYVC_NOCACHE")):
+            todo.append(q)
+    # every function is verified in a process of its own: the generated formulas (and so the solver's behaviour) do not
+    # depend on what else was verified before; functions run in parallel
+    if todo:
+        import subprocess, sys, tempfile
+        from concurrent.futures import ThreadPoolExecutor
+        tmpd = tempfile.mkdtemp(prefix="vc_", dir=cdir)
+
+        def one(q):
+            heavy = q.endswith(".optimize")
+            ncases = len(REG.get(q).cases) if heavy else 1
+            procs_, outs = [], []
+            for ci_ in range(ncases):
+                out = os.path.join(tmpd, f"{q}.{ci_}.json")
+                env = dict(os.environ, PYTHONHASHSEED="0")
+                if ncases > 1:
+                    env["PYVC_CASE"] = str(ci_)        # the type cases of a heavy function are verified side by side
+                outs.append(out)
+                procs_.append(subprocess.Popen([sys.executable, "-m", "pyvc.worker", q, tier, out, "6" if heavy else "3"], cwd=VERIF,
+                                               stdout=subprocess.DEVNULL, stderr=subprocess.PIPE, text=True, env=env))
+            merged = {"records": [], "undecided": []}
+            for pr, out in zip(procs_, outs):
+                _, err = pr.communicate()
+                if not os.path.exists(out):
+                    return q, None, (err or "")[-400:]
+                d_ = json.load(open(out))
+                merged["records"] += d_["records"]
+                merged["undecided"] += d_["undecided"]
+            return q, merged, ""
+        fresh = {}
+        with ThreadPoolExecutor(6) as ex:
+            for q, d, err in ex.map(one, sorted(todo, key=lambda x: not x.endswith(".optimize"))):
+                if d is None:
+                    R.machinery.append(f"VC worker crashed on {q}: {err}")
+                    continue
+                fresh[q] = d
+                und = d["undecided"]
+                if not und and all(r_["status"] == "unsat" for r_ in d["records"] if not r_["expect_sat"]):
+                    json.dump(d, open(os.path.join(cdir, q + ".json"), "w"))     # only clean results are reused
+        import shutil
+        shutil.rmtree(tmpd, ignore_errors=True)
+    for q in funcs:
+        cpath = os.path.join(cdir, q + ".json")
+        d = json.load(open(cpath)) if (os.path.exists(cpath) and q not in todo) else (fresh.get(q) if todo else None)
+        if d is None:
             continue
-        n0, u0 = set(eng.obligations), len(eng.undecided)
-        eng.verify(q)
-        new = {k: ob for k, ob in eng.obligations.items() if k not in n0}
-        res = discharge(new, timeout, cross_check=(tier == "thorough"))
-        # an obligation the solver left open is retried alone with more time and other random seeds before it is
-        # reported: a time-out under load must not look like a failed proof
-        from .solve import retry_unknown
-        retry_unknown(new, res, timeout * 4)
-        recs = []
-        for k, ob in new.items():
-            r = res[k]
-            recs.append(dict(name=ob.name, kind=ob.kind, case=ob.case, expect_sat=ob.expect_sat, qname=ob.qname,
-                             status=r["status"], time=r["time"], backend=r["backend"], reason=r.get("reason", ""),
-                             cvc5=r.get("cvc5"), clause=ob.clause, loc=ob.loc, tags=list(ob.tags)))
-        und = [list(u) for u in eng.undecided[u0:]]
-        json.dump({"records": recs, "undecided": und}, open(cpath, "w"))
-        records += recs
-        undecided_all += [tuple(u) for u in und]
+        records += d["records"]
+        undecided_all += [tuple(u) for u in d["undecided"]]
     R.hashes.update(eng.src.hashes(sorted(mods)))
     failed_by_fn = {}
     tags = set()
